@@ -58,6 +58,10 @@ func init() {
 			"(R7) close frames are written under the same mutex as data frames. " +
 			"It does not decide acceptance of whole output traces by the protocol automata (interleavings of engine events with client messages).",
 		Mutants: []Mutant{
+			{Name: "the finished query releases its id a second time on its way out (reverts the F60 fix)", File: "execution/subscription/engine.go", Rule: "C19-R14", Key: "ExecutorEngine.handleNonSubscriptionOperation/id-released-only-while-owned",
+				Old: "\t\t// the id is not released here: that has happened before the terminal message was written,\n\t\t// and by now the client may have started another operation under the same id\n", New: "\t\te.subCancellations.Cancel(id)\n"},
+			{Name: "the subscription goroutine releases its id when it ends (seeded change C19-1)", File: "execution/subscription/engine.go", Rule: "C19-R14", Key: "ExecutorEngine.startSubscription/id-released-only-while-owned",
+				Old: "func (e *ExecutorEngine) startSubscription(ctx context.Context, id string, executor Executor, eventHandler EventHandler) {\n\tdefer func() {\n", New: "func (e *ExecutorEngine) startSubscription(ctx context.Context, id string, executor Executor, eventHandler EventHandler) {\n\tdefer func() {\n\t\te.subCancellations.Cancel(id)\n"},
 			{Name: "wrongly typed messages are only logged (reverts part of the F56 fix)", File: c19TwGo, Rule: "C19-R13", Key: "ProtocolGraphQLTransportWSHandler.Handle/undecodable-message-closes-the-connection",
 				Old: "\t\tp.closeConnectionWithReason(NewCloseReason(4400, \"Invalid message\"))\n", New: ""},
 			{Name: "subscribe without id is executed (reverts part of the F56 fix)", File: c19TwGo, Rule: "C19-R13", Key: "ProtocolGraphQLTransportWSHandler.handleSubscribe/start-operation-needs-an-id",
@@ -124,8 +128,8 @@ func init() {
 			{Name: "graphql-ws sends complete before the data of a query", File: c19WsGo, Rule: "C19-R6", Key: "GraphQLWSWriteEventHandler.Emit/data-then-complete",
 				Old: "\t\tg.HandleWriteEvent(GraphQLWSMessageTypeData, id, data, err)\n\t\tg.HandleWriteEvent(GraphQLWSMessageTypeComplete, id, data, err)\n", New: "\t\tg.HandleWriteEvent(GraphQLWSMessageTypeComplete, id, data, err)\n\t\tg.HandleWriteEvent(GraphQLWSMessageTypeData, id, data, err)\n"},
 			{Name: "a failing query keeps its id registered (seeded change C19-21, ported)", File: c19EngineGo, Rule: "C19-R6", Key: "releases-id",
-				Old: "\tdefer func() {\n\t\te.subCancellations.Cancel(id)\n\t\terr := e.executorPool.Put(executor)\n\t\tif err != nil {\n\t\t\te.logger.Error(\"subscription.Handle.handleNonSubscriptionOperation()\",\n\t\t\t\tabstractlogger.Error(err),\n\t\t\t)\n\t\t}\n\t}()\n\n\texecutor.SetContext(ctx)\n\tbuf := e.bufferPool.Get().(*graphql.EngineResultWriter)\n\tbuf.Reset()\n\n\tdefer e.bufferPool.Put(buf)\n\n\terr := executor.Execute(buf)\n\t// The operation is over: release its id before the terminal message is written,\n\t// a client that has received it may re-use the id at once.\n\te.subCancellations.Cancel(id)\n\tif err != nil {\n",
-				New: "\tdefer func() {\n\t\terr := e.executorPool.Put(executor)\n\t\tif err != nil {\n\t\t\te.logger.Error(\"subscription.Handle.handleNonSubscriptionOperation()\",\n\t\t\t\tabstractlogger.Error(err),\n\t\t\t)\n\t\t}\n\t}()\n\n\texecutor.SetContext(ctx)\n\tbuf := e.bufferPool.Get().(*graphql.EngineResultWriter)\n\tbuf.Reset()\n\n\tdefer e.bufferPool.Put(buf)\n\n\terr := executor.Execute(buf)\n\tif err == nil {\n\t\te.subCancellations.Cancel(id)\n\t}\n\tif err != nil {\n"},
+				Old: "\terr := executor.Execute(buf)\n\t// The operation is over: release its id before the terminal message is written,\n\t// a client that has received it may re-use the id at once.\n\te.subCancellations.Cancel(id)\n\tif err != nil {\n",
+				New: "\terr := executor.Execute(buf)\n\tif err == nil {\n\t\te.subCancellations.Cancel(id)\n\t}\n\tif err != nil {\n"},
 			{Name: "close frame written without the client's write mutex", File: "execution/subscription/websocket/client.go", Rule: "C19-R7", Key: "close-frame-holds-writer-mutex",
 				Old: "func (c *Client) writeFrame(frame ws.Frame) error {\n\tc.writeMu.Lock()\n\tdefer c.writeMu.Unlock()\n", New: "func (c *Client) writeFrame(frame ws.Frame) error {\n"},
 		},
@@ -414,6 +418,7 @@ func runC19(r *fw.Run) {
 	defer c19NoDataFrameAfterCloseFrame(r)
 	defer c19CompleteOnlyForActiveIds(r)
 	defer c19IdReleasedBeforeTerminalMessage(r)
+	defer c19IdReleasedOnlyWhileOwned(r)
 	p := r.Prog
 	ws, sub := p.Pkg("websocket"), p.Pkg("subscription")
 	if ws == nil || sub == nil {
@@ -2261,4 +2266,77 @@ func c19UndecodableMessagesClose4400(r *fw.Run) {
 	}
 	r.Expect("C19-R13", "exits on the failure edge of message decoding", nExits, 2)
 	r.Expect("C19-R13", "StartOperation calls of the transport-ws handler", nStarts, 1)
+}
+
+// c19IdReleasedOnlyWhileOwned (R14): ids are re-usable. The table of active operations (subscriptionCancellations) is keyed
+// by the client's id only, so Cancel(id) cancels whoever holds the id *now*. The goroutine of an operation may therefore
+// release "its" id only while it still owns it; it stops owning it (a) once it has released it, (b) once it has emitted a
+// terminal event — the client may start a new operation under the id as soon as it has that message —, and (c) once its
+// context is done (StopSubscription released the id and the client may have re-used it). In the functions ExecutorEngine
+// runs as the goroutine of an operation (the targets of its `go` statements and what they call in the engine), no
+// Cancel(id) is reachable after one of these events — deferred functions included, which run last.
+func c19IdReleasedOnlyWhileOwned(r *fw.Run) {
+	p := r.Prog
+	r.Rule("C19-R14", "the goroutine of an operation releases its id (subscriptionCancellations.Cancel) only while it still owns it: never after an earlier release, after a terminal event, or after its context was done — deferred functions included")
+	// goroutine entry points: go e.<method>(…) inside ExecutorEngine
+	entries := map[*fw.FuncInfo]bool{}
+	for _, fi := range p.Funcs("subscription") {
+		info := fi.Info()
+		fw.WalkAll(fi.Decl.Body, func(nd ast.Node) bool {
+			if g, ok := nd.(*ast.GoStmt); ok {
+				if callee := p.FuncOf(fw.Callee(info, g.Call)); callee != nil && strings.HasPrefix(callee.Name(), "ExecutorEngine.") {
+					entries[callee] = true
+				}
+			}
+			return true
+		})
+	}
+	n := 0
+	for _, fi := range p.Funcs("subscription") {
+		if !entries[fi] {
+			continue
+		}
+		n++
+		info := fi.Info()
+		bad := ""
+		in := fw.NewInterp(fi)
+		in.H = fw.Hooks{
+			Comm: func(cc *ast.CommClause, st *fw.State) {
+				if cc.Comm == nil {
+					return
+				}
+				fw.WalkAll(cc.Comm, func(m ast.Node) bool {
+					if u, ok := m.(*ast.UnaryExpr); ok && u.Op == token.ARROW {
+						if c, isCall := ast.Unparen(u.X).(*ast.CallExpr); isCall {
+							if fn := fw.Callee(info, c); fn != nil && fn.Pkg() != nil && fn.Pkg().Path() == "context" && fn.Name() == "Done" {
+								st.Set("not-owner")
+							}
+						}
+					}
+					return true
+				})
+			},
+			Node: func(nd ast.Node, st *fw.State) {
+				c, ok := nd.(*ast.CallExpr)
+				if !ok {
+					return
+				}
+				switch {
+				case fw.CallIs(info, c, "subscription", "subscriptionCancellations.Cancel"):
+					if in.Final() && st.May("not-owner") {
+						bad = p.Pos(c.Pos())
+					}
+					st.Set("not-owner")
+				case fw.CallIs(info, c, "subscription", "EventHandler.Emit") && len(c.Args) > 0:
+					if k := fw.ConstObj(info, c.Args[0]); k != nil && (k.Name() == "EventTypeOnNonSubscriptionExecutionResult" || k.Name() == "EventTypeOnSubscriptionCompleted" || (k.Name() == "EventTypeOnError" && fi.Name() == "ExecutorEngine.handleNonSubscriptionOperation")) {
+						st.Set("not-owner")
+					}
+				}
+			},
+		}
+		in.Run(nil)
+		r.Check(bad == "", "C19-R14", fi.Name()+"/id-released-only-while-owned", p.Pos(fi.Decl.Pos()), "the operation goroutine "+fi.Name()+" releases its id only while it still owns it",
+			"subscriptionCancellations.Cancel(id) at "+bad+" is reachable after the goroutine stopped owning the id (it was released before, a terminal event was emitted, or the context was done): the client may have started a new operation under the same id by then, and this release cancels that operation")
+	}
+	r.Expect("C19-R14", "operation goroutines of ExecutorEngine", n, 2)
 }
